@@ -155,7 +155,10 @@ async fn vf_listener_failures_at_connect() {
     // C15: the optional log listener being absent, or answering and then failing at any stage of the handshake, never fails the run
     let (mut checked, mut bad) = (0u64, 0u64);
     for mode in ["no listener", "accepts and closes at once", "accepts and sends a line that is not the expected JSON", "accepts and sends half a line, then closes",
-                 "accepts, sends valid arguments, then closes", "accepts, sends valid arguments asking for stdout, then closes"] {
+                 "accepts, sends valid arguments, then closes", "accepts, sends valid arguments asking for stdout, then closes",
+                 "accepts, sends long target and command filters in a non-Latin script, then reads to the end",
+                 "accepts, sends long target and command filters in a non-Latin script (shifted by one byte), then reads to the end",
+                 "accepts, sends long target and command filters in a non-Latin script (shifted by two bytes), then reads to the end"] {
         checked += 1;
         let td = crate::core::testing::new_testdir().unwrap();
         let wp = td.path();
@@ -173,6 +176,14 @@ async fn vf_listener_failures_at_connect() {
                         "accepts and sends a line that is not the expected JSON" => { let _ = s.write_all(b"hello there\n"); }
                         "accepts and sends half a line, then closes" => { let _ = s.write_all(b"{\"commands\":[\"a\"],"); }
                         "accepts, sends valid arguments, then closes" => { let _ = s.write_all(b"{\"commands\":[],\"targets\":[],\"include_stdout\":false,\"include_stderr\":false}\n"); }
+                        x if x.starts_with("accepts, sends long target and command filters in a non-Latin script") => {
+                            // filters a listener may well have: one long name that is not ASCII (the banner the client sends back names it); with
+                            // 0, 1 or 2 ASCII bytes in front, every byte offset falls inside a character in one of the three
+                            let shift = if x.contains("one byte") { "a" } else if x.contains("two bytes") { "ab" } else { "" };
+                            let name = format!("\"{}{}\"", shift, "\u{30b5}\u{30fc}\u{30d3}\u{30b9}\u{6a5f}\u{80fd}\u{30e2}\u{30b8}\u{30e5}\u{30fc}\u{30eb}".repeat(5));
+                            let _ = s.write_all(format!("{{\"commands\":[{}],\"targets\":[{}],\"include_stdout\":true,\"include_stderr\":true}}\n", name, name).as_bytes());
+                            use std::io::Read; let mut sink = Vec::new(); let _ = s.read_to_end(&mut sink);
+                        }
                         _ => { let _ = s.write_all(b"{\"commands\":[],\"targets\":[],\"include_stdout\":true,\"include_stderr\":true}\n"); }
                     }
                     drop(s);
@@ -181,11 +192,17 @@ async fn vf_listener_failures_at_connect() {
         };
         let cfg: core::Config = serde_json::from_str(&format!("{{\"targets\":[{{\"path\":\"t1\"}}],\"server\":{{\"log\":{{\"port\":{}}},\"lock\":{{}}}}}}", port)).unwrap();
         let cmd = "hello".to_string();
-        let o = match tokio::time::timeout(std::time::Duration::from_secs(20), handle_run(&cfg, &input(vec![&cmd]), "x", wp)).await { Ok(o) => o, Err(_) => Err(MonorailError::from("the run did not return within 20 s")) };
-        let ok = matches!(&o, Ok(out) if !out.failed);
+        // the run is driven on a thread of its own, so that a panic inside it is an outcome to report, not the end of the finder
+        let wp2 = wp.to_path_buf();
+        let joined = std::thread::spawn(move || {
+            let rt = tokio::runtime::Builder::new_multi_thread().worker_threads(2).enable_all().build().unwrap();
+            rt.block_on(async { match tokio::time::timeout(std::time::Duration::from_secs(20), handle_run(&cfg, &input(vec![&cmd]), "x", &wp2)).await { Ok(o) => o.map(|x| x.failed).map_err(|e| e.to_string()), Err(_) => Err("the run did not return within 20 s".to_string()) } })
+        }).join();
+        let o: Result<bool, String> = match joined { Ok(r) => r, Err(_) => Err("the run PANICKED".to_string()) };
+        let ok = matches!(&o, Ok(false));
         if !ok {
             bad += 1;
-            println!("VF-FAIL run of one succeeding command with the log listener in state `{}` :: the run did not succeed ({:?}); a listener failure must only disable streaming (C15)", mode, o.as_ref().map(|x| x.failed).map_err(|e| e.to_string()));
+            println!("VF-FAIL run of one succeeding command with the log listener in state `{}` :: the run did not succeed ({:?}); a listener - whatever it sends, whatever becomes of it - must only affect streaming (C15)", mode, o);
         }
         if let Some(h) = server { if mode != "no listener" && !h.is_finished() { let _ = std::net::TcpStream::connect(("127.0.0.1", port)); } let _ = h.join(); }
     }
